@@ -198,9 +198,10 @@ func ruleK2(c *Ctx) *RuleResult {
 // K3: context provenance
 
 type ctxProv struct {
-	c    *Ctx
-	memo map[ssa.Value]string // "" = ok
-	busy map[ssa.Value]bool
+	c       *Ctx
+	memo    map[ssa.Value]string // "" = ok
+	busy    map[ssa.Value]bool
+	origins map[string]bool // root context fields reached ("clientRoutinePool.ctx", "Client.ctx")
 }
 
 // bad returns "" when every source of v is a cancellable context, else a reason.
@@ -318,6 +319,13 @@ func (p *ctxProv) bad0(v ssa.Value, depth int) string {
 			break
 		}
 		if f, _ := fieldOfAddr(x.X); f != nil {
+			// a root context field: every store is a context.With* result
+			if p.isRootCtxField(f) {
+				if p.origins != nil {
+					p.origins[c.fieldName(f)] = true
+				}
+				return ""
+			}
 			n := 0
 			for _, fn := range c.Funcs {
 				var why string
@@ -356,10 +364,38 @@ func (p *ctxProv) bad0(v ssa.Value, depth int) string {
 	return "unrecognised context source " + v.String()
 }
 
+// isRootCtxField: every store to the field is the first result of context.WithCancel / WithTimeout / WithDeadline.
+func (p *ctxProv) isRootCtxField(f *types.Var) bool {
+	n := 0
+	ok := true
+	for _, fn := range p.c.Funcs {
+		for _, st := range storesToField(p.c, fn, f) {
+			n++
+			ex, isEx := st.Val.(*ssa.Extract)
+			if !isEx || ex.Index != 0 {
+				ok = false
+				continue
+			}
+			call, isCall := ex.Tuple.(*ssa.Call)
+			if !isCall || call.Call.StaticCallee() == nil || call.Call.StaticCallee().Pkg == nil || call.Call.StaticCallee().Pkg.Pkg.Path() != "context" {
+				ok = false
+			}
+		}
+	}
+	return ok && n > 0
+}
+
 func ruleK3(c *Ctx) *RuleResult {
 	r := &RuleResult{Floor: 20, FloorWhat: "context uses (Done() calls and HTTP requests) in client code"}
 	prov := &ctxProv{c: c, memo: map[ssa.Value]string{}, busy: map[ssa.Value]bool{}}
 	nreq := 0
+	ro := c.roles()
+	var poolRoots []*ssa.Function
+	poolRoots = append(poolRoots, ro.Runnable...)
+	if add := c.Method("", "clientRoutinePool", "add"); add != nil {
+		poolRoots = append(poolRoots, goBodies(c, add)...)
+	}
+	poolSet := c.reachRole(poolRoots)
 	for _, fn := range c.clientFuncs() {
 		cd, ch := 0, 0
 		allInstrs(fn, func(in ssa.Instruction) {
@@ -370,8 +406,19 @@ func ruleK3(c *Ctx) *RuleResult {
 			if ctxv, ok := isDoneCall(call); ok {
 				cd++
 				key := fmt.Sprintf("%s|Done#%d", FuncName(fn), cd)
-				if why := prov.bad(ctxv, 0); why == "" {
-					r.ok(key, c.Pos(call.Pos()), FuncName(fn), "the context whose Done() is awaited derives from a cancellable (pool or client) context on every call path", "all sources are context.WithCancel results")
+				why := prov.bad(ctxv, 0)
+				if why == "" {
+					// which root contexts can reach this use? pool code must wait on the pool context only: the
+					// client context is cancelled by Close() alone, not by the first fatal error
+					op := &ctxProv{c: c, memo: map[ssa.Value]string{}, busy: map[ssa.Value]bool{}, origins: map[string]bool{}}
+					op.bad(ctxv, 0)
+					if poolSet[fn] && (len(op.origins) != 1 || !op.origins["clientRoutinePool.ctx"]) {
+						why = "in a pool routine the awaited context must be the pool context only, but it can be " + strings.Join(sortedKeys(op.origins), " / ") +
+							": that context is not cancelled when another routine fails, so rp.close() waits for this goroutine forever and Wait() never yields"
+					}
+				}
+				if why == "" {
+					r.ok(key, c.Pos(call.Pos()), FuncName(fn), "the context whose Done() is awaited derives from a cancellable (pool or client) context on every call path", "all sources are context.WithCancel results; pool routines wait on the pool context")
 				} else {
 					r.fail(key, c.Pos(call.Pos()), FuncName(fn), "the context whose Done() is awaited derives from a cancellable (pool or client) context on every call path", why)
 				}
@@ -390,7 +437,15 @@ func ruleK3(c *Ctx) *RuleResult {
 				ch++
 				nreq++
 				key := fmt.Sprintf("%s|http#%d", FuncName(fn), ch)
-				if why := prov.bad(call.Call.Args[0], 0); why != "" {
+				why := prov.bad(call.Call.Args[0], 0)
+				if why == "" {
+					op := &ctxProv{c: c, memo: map[ssa.Value]string{}, busy: map[ssa.Value]bool{}, origins: map[string]bool{}}
+					op.bad(call.Call.Args[0], 0)
+					if poolSet[fn] && (len(op.origins) != 1 || !op.origins["clientRoutinePool.ctx"]) {
+						why = "the request context can be " + strings.Join(sortedKeys(op.origins), " / ") + " instead of the pool context"
+					}
+				}
+				if why != "" {
 					r.fail(key, c.Pos(call.Pos()), FuncName(fn), "the request context derives from the pool context", why)
 				} else {
 					r.ok(key, c.Pos(call.Pos()), FuncName(fn), "the request context derives from the pool context", "context argument derives from context.WithCancel")
